@@ -107,6 +107,89 @@ def rule_generator(eng, rep, fid):
         rep.ok(rule_c, eng.where(fi, st), "the last write to every returned column is `%s` for i in range(%s)" % (short(asg, 60), count))
 
 
+INF = float("inf")
+
+
+def _interval(eng, fi, cfg, e, at, arr, depth=0):
+    """Interval of a scalar step in units of delta: (lo, hi) or None (unknown).  Facts used: delta > 0, sl <= 0 <= su (bounds relative to the base point,
+    which lies in the box), stored steps of earlier points are themselves within [-2, 2] (inductive)."""
+    from ..norm import const_value
+    if isinstance(e, ast.Attribute) and e.attr == "delta":
+        return (1.0, 1.0)
+    if isinstance(e, ast.UnaryOp) and isinstance(e.op, ast.USub):
+        r = _interval(eng, fi, cfg, e.operand, at, arr, depth)
+        return None if r is None else (-r[1], -r[0])
+    if isinstance(e, ast.BinOp) and isinstance(e.op, ast.Mult):
+        for c, x in ((e.left, e.right), (e.right, e.left)):
+            cv = const_value(c)
+            if cv is not None:
+                r = _interval(eng, fi, cfg, x, at, arr, depth)
+                if r is None:
+                    return None
+                lo, hi = sorted((cv * r[0], cv * r[1]))
+                return (lo, hi)
+        return None
+    if isinstance(e, ast.Subscript):
+        t = ekey(e.value)
+        if t.endswith(".su"):
+            return (0.0, INF)
+        if t.endswith(".sl"):
+            return (-INF, 0.0)
+        if t == arr:
+            return (-2.0, 2.0)
+        return None
+    if isinstance(e, ast.Call) and isinstance(e.func, ast.Name) and e.func.id in ("min", "max") and len(e.args) == 2:
+        a, b = _interval(eng, fi, cfg, e.args[0], at, arr, depth), _interval(eng, fi, cfg, e.args[1], at, arr, depth)
+        if a is None or b is None:
+            return None
+        f = min if e.func.id == "min" else max
+        return (f(a[0], b[0]), f(a[1], b[1]))
+    if isinstance(e, ast.IfExp):
+        a, b = _interval(eng, fi, cfg, e.body, at, arr, depth), _interval(eng, fi, cfg, e.orelse, at, arr, depth)
+        if a is None or b is None:
+            return None
+        return (min(a[0], b[0]), max(a[1], b[1]))
+    if isinstance(e, ast.Name) and depth < 4:
+        out = None
+        for dn in cfg.defs_reaching(at, e.id):
+            st = cfg.ast_of(dn)
+            if not (isinstance(st, ast.Assign) and len(st.targets) == 1):
+                return None
+            if isinstance(st.value, ast.Constant) and st.value.value is None:
+                continue
+            r = _interval(eng, fi, cfg, st.value, st, arr, depth + 1)
+            if r is None:
+                return None
+            out = r if out is None else (min(out[0], r[0]), max(out[1], r[1]))
+        return out
+    return None
+
+
+def rule_coordinate_steps_bounded(eng, rep, rule="C14-4.coordinate-initialisation-steps-are-at-most-2-delta"):
+    """Ordering clause of 'each point lies between 0.01*rhobeg and 2*rhobeg from x0' for the coordinate initialisation: every step stored in the table of
+    initial points is, by interval reasoning over +/-c*delta, min/max and the signs of the relative bounds, within [-2*delta, 2*delta]."""
+    fi = eng.fn("controller.Controller.initialise_coordinate_directions")
+    cfg = eng.cfg(fi)
+    n = 0
+    for node in eng.prog.own_nodes(fi):
+        if isinstance(node, ast.Assign) and len(node.targets) == 1 and isinstance(node.targets[0], ast.Subscript) and isinstance(node.targets[0].value, ast.Name) \
+                and node.targets[0].value.id.startswith("xpts"):
+            t = node.targets[0]
+            if isinstance(node.value, ast.Subscript) and ekey(node.value.value) == t.value.id:
+                continue       # copies / swaps of rows already stored
+            n += 1
+            r = _interval(eng, fi, cfg, node.value, node, t.value.id)
+            site = eng.where(fi, node)
+            if r is None:
+                rep.unknown(rule, site, "cannot bound the step `%s`" % short(node.value))
+            elif -2.0 <= r[0] and r[1] <= 2.0:
+                rep.ok(rule, site, "step `%s` lies in [%g, %g] * delta" % (short(node.value, 40), r[0], r[1]))
+            else:
+                rep.bad(rule, site, "controller.Controller.initialise_coordinate_directions|step-exceeds-2-delta|%s" % short(node.value, 30),
+                        "step `%s` can lie in [%s, %s] * delta: an initial point farther than 2*rhobeg from x0 (min/max or sign slip in a mirrored block)" % (short(node.value), r[0], r[1]))
+    rep.require_count(rule, "steps stored in the table of initial points", n, 3)
+
+
 def run(eng, rep):
     rep.explain("C14 (generator clauses): for both random-direction generators the result matrix is allocated with at least num_pts columns and exactly the first "
                 "num_pts are returned (shape expressions compared symbolically); the only writes after all construction steps are the clamp loop "
@@ -116,6 +199,7 @@ def run(eng, rep):
                         "'no longer than the requested length' (in doubt for the extra active-constraint directions built with 2*delta; numerical, noted, not armed)"]
     for fid in GENS:
         rule_generator(eng, rep, fid)
+    rule_coordinate_steps_bounded(eng, rep)
     # who calls them: every use passes bounds relative to the centre (sl - xopt, su - xopt) -- frames decided under C13/C01
     n = 0
     for fid in GENS:
